@@ -339,7 +339,10 @@ func runConcurrency(rc *RunCtx) *Violation {
 	var grammars []string
 	if useEbnf {
 		for _, sp := range parsers {
-			grammars = append(grammars, sp.p.String())
+			sp := sp
+			if r := call(func() (interface{}, error) { s := sp.p.String(); return &s, nil }); r.Panic == "" {
+				grammars = append(grammars, *(r.Val.(*string)))
+			}
 		}
 		grammars = append(grammars, "A = \"a\" B* .\nB = <ident> | (\"(\" A \")\")+ .", "Broken = ( \"x\" ")
 		rc.agg.Worlds["ebnf(package-level parser)"]++
